@@ -89,7 +89,7 @@ def untyped_builder():
     return obs
 
 
-@scenario("toplevel:produce_regex", Y + ".produce_regex", ["C01", "C07"],
+@scenario("toplevel:produce_regex", Y + ".produce_regex", ["C01", "C07", "C11"],
           inlined=["_get_pattern", "_generate_rule_tree", "context_initializer", "PatternNodeBuilderNoParents",
                    "GeneralPatternNodeBuilder.build (whole chain)", "every get_regex of the tree"],
           doc="whole compilation of item-list patterns with opaque literal names, 4 flag settings")
@@ -135,7 +135,7 @@ def produce_regex():
                                        f"{tb.show(p.value)} == consecutive records, one per item, names positional ({tb.show(sp)})",
                                        lambda: vc.den(cb, sb, G.INST, lv), ["C01"], rp))
                     obs.append(lang_ob(base + ":START-a", Y + ".produce_regex", "START", "matches begin at a record start / in an address",
-                                       lambda: vc.start_a(cb, lv), ["C07", "C01"], rp))
+                                       lambda: vc.start_a(cb, lv), ["C07", "C11", "C01"], rp))
                     obs.append(lang_ob(base + ":END", Y + ".produce_regex", "END", "matches end at a record end",
-                                       lambda: vc.end(cb, G.INST, lv), ["C07", "C01"], rp))
+                                       lambda: vc.end(cb, G.INST, lv), ["C07", "C11", "C01"], rp))
     return obs
